@@ -848,10 +848,80 @@ def judge_headers(case):
   return out, tuple(sorted(case["lines"]))
 
 
+# ---------------------------------------------------------------------------
+# line-level conversion of paths BEFORE their (unnamed) links: the edge names
+# the path line invents must be the names the links are then written with
+
+def cases_linelevel(quick):
+  for c in cases_1to2_paths(quick):
+    if " both," in c["cell"] or " path-first" in c["cell"]:
+      continue
+    lines = []
+    for l in c["lines"]:
+      f = l.split("\t")
+      if f[0] == "L":
+        f = [x for x in f if not x.startswith("ID:Z:")]
+      lines.append("\t".join(f))
+    yield {"dir": "1to2", "family": "Pline", "cell": c["cell"], "cigar": "-",
+           "lines": lines, "meta": {}}
+
+
+def judge_linelevel(case):
+  out = []
+
+  def chk(clause, field, exp, obs):
+    if exp != obs:
+      out.append((clause, field, exp, obs))
+  for order in ("paths-first", "links-first"):
+    g = gfapy.Gfa(version="gfa1", vlevel=1)
+    for l in case["lines"]:
+      g.add_line(l)
+    groups = [("P", list(g.paths)), ("L", list(g.dovetails)),
+              ("S", list(g.segments))]
+    if order == "links-first":
+      groups = [groups[1], groups[0], groups[2]]
+    texts = []
+    r = None
+    for rt, ls in groups:
+      for l in ls:
+        r = _try(lambda: l.to_gfa2_s())
+        if raised(r):
+          break
+        texts.append(r)
+      if raised(r):
+        break
+    if raised(r):
+      chk("conversion-raises", order + ": line.to_gfa2_s()", None, r)
+      continue
+    def build():
+      c = gfapy.Gfa(texts, version="gfa2", vlevel=3)
+      c.validate()
+      return c
+    c = _try(build)
+    if raised(c):
+      chk("invalid-output", order + ": converted lines parsed with vlevel=3",
+          None, c)
+      continue
+    for p in g.paths:
+      want = [str(x.name) + x.orient for x in p.segment_names]
+      ptext = str(p).split("\t")
+      if len(want) > 1 and len(ptext[3].split(",")) == len(want):
+        # circular path: the ordered group comes back to its first segment
+        want = want + [want[0]]
+      o = c.line(p.name)
+      got = _try(lambda: [str(x.name) + x.orient
+                          for x in o.captured_segments])
+      chk("line-conversion", order + ": segments of the converted path " +
+          str(p.name), want, got)
+  return out, tuple(sorted(case["lines"]))
+
+
 def judge(case):
   fn = judge_1to2 if case["dir"] == "1to2" else judge_2to1
   if case["family"] == "H":
     fn = judge_headers
+  elif case["family"] == "Pline":
+    fn = judge_linelevel
   try:
     with guard():
       probs, st = fn(case)
@@ -981,7 +1051,8 @@ def run(ctx):
           if "gfa1-only" in c["cell"]] if ctx.quick else []) + \
       list(cases_1to2_paths(ctx.quick)) + \
       list(cases_2to1_edges(ctx.quick)) + list(cases_2to1_other()) + \
-      list(cases_2to1_paths()) + list(cases_headers())
+      list(cases_2to1_paths()) + list(cases_headers()) + \
+      list(cases_linelevel(ctx.quick))
   fam = {}
   for c in cases:
     k = c["dir"] + ":" + c["family"]
